@@ -83,7 +83,7 @@ func c11Dirty(c *core.C, s *gen.Schema) {
 				m.Comment = ""
 			}
 			for _, fl := range m.Fields {
-				if c.Rand.IntN(6) == 0 && fl.Kind != "group" {
+				if c.Rand.IntN(6) == 0 && fl.Kind != "group" && !strings.HasPrefix(strings.ToLower(fl.Name), "dup") {
 					fl.Name = "bad" + gen.Pascal(fl.Name)
 				}
 				if c.Rand.IntN(8) == 0 {
